@@ -284,6 +284,31 @@ def run(eng, R):
         hits = [n for n in g.nodes if any(_fitter_call(c, callee) for c in _calls_in(n))]
         R.ob("S-fix", "%s.%s:forward" % (cname, fn), bool(hits), (f.file, f.lineno), "%s.%s must forward to the fitter" % (cname, fn))
 
+    # a re-created fitter inherits the fixed and limited parameters of the one it replaces
+    n_init = 0
+    for cls in p.find_class("FitBase").concrete_leafs():
+        f = cls.find_method("_initialize_fitter")
+        if f is None or f.cls is not cls:
+            continue
+        n_init += 1
+        g = eng.cfg(f)
+        mk = [n for n in g.nodes if n.kind == "stmt" and isinstance(n.stmt, ast.Assign) and any(self_attr(t) == "_fitter" for t in n.stmt.targets)
+              and isinstance(n.stmt.value, ast.Call) and _txt(n.stmt.value.func) == "NexusFitter"]
+        ok = len(mk) == 1
+        if ok:
+            ok, _ = g.all_paths_pass(mk[0].id, lambda n: any(_self_call(c, "_restore_fitter_configuration") for c in _calls_in(n)))
+            saved = [n for n in g.nodes if n.kind == "stmt" and isinstance(n.stmt, ast.Assign) and "_fitter" in _txt(n.stmt.value) and isinstance(n.stmt.targets[0], ast.Name)]
+            ok = ok and bool(saved) and all(g.dominated_by(mk[0].id, lambda n, s=s_: n.id == s.id)[0] for s_ in saved[:1])
+        R.ob("S-fix", "%s._initialize_fitter:configuration kept" % cls.name, ok, (f.file, f.lineno),
+             "%s._initialize_fitter replaces the fitter without carrying over the fixed and limited parameters of the previous one (they are silently released)" % cls.name)
+    if n_init < 2:
+        raise AnalysisError("_initialize_fitter implementations not found")
+    f = get_func(p, "FitBase", "_restore_fitter_configuration")
+    src = _txt(f.node)
+    ok = "for _par_name, _par_value in old_fitter.fixed_parameters.items(): self._fitter.fix_parameter(_par_name, _par_value)" in src \
+        and "for _par_name, _par_limits in old_fitter.limited_parameters.items(): self._fitter.limit_parameter(_par_name, _par_limits)" in src
+    R.ob("S-fix", "FitBase._restore_fitter_configuration", ok, (f.file, f.lineno), "the restore step must fix every previously fixed parameter at its recorded value and re-apply every recorded limit")
+
     # ------------------------------------------------------------------ S-imin
     IM = "MinimizerIMinuit"
     f = get_func(p, IM, "_get_iminuit")
